@@ -5,7 +5,7 @@
    haplotypes of some phase sets are listed in another order.  Each line is
    one reported result, projected to small integers by the driver:
 
-     Pair       run chrom i j p F=<<phasing of file i, of file j>> (Compare.tla records)
+     Pair       run chrom i j p mav F=<<phasing of file i, of file j>> (Compare.tla records)
                 row  = [nblk cov pairs sw sfs sff ham dg]   "ALL INTERSECTION BLOCKS" columns of --tsv-pairwise
                 lrow = [pairs sw sfs sff ham dg]            "LARGEST INTERSECTION BLOCK" columns
                        (sw sfs sff ham in haplotype units = ploidy x printed value; -1 = not an integer)
@@ -62,18 +62,23 @@ JudgeAux_(e, F, L, B) ==
                                  /\ AgreeOK_(e, Haps(F, 1, blk, 2), Haps(F, 2, blk, 2)))
     /\ Check(e, "ZeroForIdentical", F[1] = F[2] => (e.bed = << >> /\ Zeros(Seconds(e.agree)) = 0))
 
-JudgePairT_(e, F, P, B, rep, t, L, twin) ==
-    /\ Check(e, "IntersectionBlocks", RowBlocksOK(e.row, t))
+(* the clauses that compare reported numbers with the definitions of Compare.tla.  Events flagged mav come from
+   worlds with multi-allelic variants (alleles 0..2): there only the clauses that need no definition beyond the
+   statement itself are judged (blocks, genotype differences, identity, zero for identical, invariance, no crash). *)
+JudgeDefs_(e, F, P, B, rep, t, L) ==
     /\ Check(e, "SwitchErrorsAreDefinition", RowSwitchesOK(e.row, t))
     /\ Check(e, "SwitchFlipIsDefinition", RowSFOK(e.row, t))
     /\ Check(e, "HammingIsDefinition", RowHammingOK(e.row, t))
-    /\ Check(e, "GenotypeDiffsAreDefinition", RowDGOK(e.row, t))
     /\ Check(e, "LargestBlockIsDefinition",
              IF L = {} THEN LargestIs(e.lrow, EmptyReport) ELSE \E blk \in L : LargestIs(e.lrow, rep[blk]))
+    /\ (IF e.aux THEN JudgeAux_(e, F, L, B) ELSE TRUE)
+JudgePairT_(e, F, P, B, rep, t, L, twin) ==
+    /\ Check(e, "IntersectionBlocks", RowBlocksOK(e.row, t))
+    /\ Check(e, "GenotypeDiffsAreDefinition", RowDGOK(e.row, t))
+    /\ (IF e.mav THEN TRUE ELSE JudgeDefs_(e, F, P, B, rep, t, L))
     /\ Check(e, "SwitchFlipIdentity",
              P = 2 => (e.row.sw = e.row.sfs + 2 * e.row.sff /\ e.lrow.sw = e.lrow.sfs + 2 * e.lrow.sff))
     /\ Check(e, "ZeroForIdentical", F[1] = F[2] => (ErrZero(e.row) /\ ErrZero(e.lrow)))
-    /\ (IF e.aux THEN JudgeAux_(e, F, L, B) ELSE TRUE)
     /\ (IF e.run = 1 /\ twin # {} THEN JudgeTwin_(e, mem[CHOOSE k \in twin : TRUE], P, Cardinality(L)) ELSE TRUE)
 JudgePairR_(e, F, P, B, rep) == JudgePairT_(e, F, P, B, rep, Totals_(B, rep), LongestOf(B), Twin(e))
 JudgePairB_(e, F, P, B) == JudgePairR_(e, F, P, B, Reports(F, B, P))
